@@ -12,7 +12,7 @@
 (* partial: outside the domain the properties quantify over the slot is     *)
 (* Unspec and only C01 (some slot, no panic) applies.                       *)
 (***************************************************************************)
-EXTENDS Env, UnixTime, TLC
+EXTENDS Env, Radix, TLC
 
 ArithMeaning(toks) ==
   IF DateLike(toks) THEN Unspec
@@ -67,6 +67,9 @@ LineMeaning(ctx, line) ==
          [slot |-> IF a.k = "date" THEN DateToUnix(a) ELSE Unspec, env |-> ctx.env]
     [] line.form = "unix_to_time" ->
          [slot |-> IF ctx.calc.tz.off = 0 THEN TimeToUnix(line.w, ctx.today) ELSE Unspec, env |-> ctx.env]
+    [] line.form = "radix_lit"   -> [slot |-> IntVal(line.bits, 0), env |-> ctx.env]
+    [] line.form = "radix_arith" -> [slot |-> IntVal(AddSmall(line.bits, line.add), 0), env |-> ctx.env]
+    [] line.form = "radix_conv"  -> [slot |-> IntVal(RoundQ(line.bits, line.q), line.target), env |-> ctx.env]
     [] line.form = "shape"   -> [slot |-> Unspec, env |-> ctx.env]
     [] OTHER                 -> [slot |-> Unspec, env |-> ctx.env]
 
@@ -102,10 +105,13 @@ PrintMatchesCtx(ctx, exp, obs) ==
   /\ (exp.k = "date" /\ Has(obs, "pr")) => DatePrintedOk(exp, ctx.today, obs.pr)
   /\ (exp.k = "datetime" /\ Has(obs, "pr")) => DateTimePrintedOk(exp, ctx.today, obs.pr)
 WithPrint(v) == IF v.k = "dur" THEN v @@ [parts |-> DurParts(v)]
-                ELSE IF v.k = "time" THEN v @@ [pr |-> TimePrinted(v)] ELSE v
+                ELSE IF v.k = "time" THEN v @@ [pr |-> TimePrinted(v)]
+                ELSE IF v.k = "int" /\ v.base # 0 THEN v @@ [pr |-> <<v.base, PrintBase(v.bits, v.base)>>] ELSE v
 SlotMatches(exp, obs) ==
   IF exp.k = "fails" THEN obs.k \in SlotKinds
   ELSE IF exp.k = "notkind" THEN obs.k \in SlotKinds /\ obs.k # exp.kind
+  ELSE IF exp.k = "int" THEN /\ obs.k = "num" /\ Has(obs, "bits") /\ obs.bits = exp.bits
+                             /\ (exp.base # 0 => Has(obs, "pr") /\ obs.pr = <<exp.base, PrintBase(exp.bits, exp.base)>>)
   ELSE IF exp.k = "ts" THEN obs.k = "num" /\ Has(obs, "ts") /\ obs.ts = <<exp.d, exp.s>> /\ (Has(obs, "pr") => obs.pr = <<exp.d, exp.s>>)
   ELSE Matches(exp, obs) /\ PrintMatches(exp, obs)
 SlotMatchesCtx(ctx, exp, obs) == SlotMatches(exp, obs) /\ PrintMatchesCtx(ctx, exp, obs)
